@@ -938,12 +938,18 @@ class ExcelCompiler:
 
                     # fetch the value for this cell, if it exists
                     ref_addr = value.address
-                    if ref_addr not in self.cell_map and getattr(self, 'excel', None):
-                        # INDIRECT() can produce addresses we don't already have loaded
-                        self._gen_graph(ref_addr)
+                    try:
+                        if ref_addr not in self.cell_map and getattr(self, 'excel', None):
+                            # INDIRECT() can produce addresses we don't already have loaded
+                            self._gen_graph(ref_addr)
 
-                    # calculate the cell the reference points to
-                    value = self._evaluate(ref_addr)
+                        # calculate the cell the reference points to
+                        value = self._evaluate(ref_addr)
+                    except Exception:
+                        if self.cycles:
+                            # the calculation of the cell is abandoned
+                            cell.wip = False
+                        raise
                 else:
                     self.log.info(
                         f"Cell {cell.address} evaluated to '{value}' ({type(value).__name__})")
